@@ -5,18 +5,21 @@
      out   what Parser.parse_module did with the text: "ok", "ParseError", "VerifyException", another exception's class name,
            "" when not run
      slow  1 when lexing + parsing exceeded the CPU-time budget for the length of the text
-   Property clauses (violations): FailsOnlyWithDiagnostics, TerminatesPromptly.
+     growth  for the long instance of a probe shape: CPU time per character in percent of the short instance's (0 = not compared)
+   Property clauses (violations): FailsOnlyWithDiagnostics, TerminatesPromptly, TimeProportionalToLength.
    Binding clauses (divergences): LexerMatchesModel, LexicalErrorIsRejected (a text with a lexical error never parses). *)
 EXTENDS MLIRLexer, Json, IOUtils, TLC
 
 Cases == JsonDeserialize(IOEnv.CASE_FILE)
 VARIABLE i
 Diagnostics == {"ok", "ParseError", "VerifyException", ""}
+MaxGrowthPercent == 400     \* CPU time per character at ten times the length, in percent of the short instance (100 = linear)
 ModelToks(t) == LET ts == Tokens(t, 1) IN [k \in DOMAIN ts |-> <<ts[k].k, ts[k].lo, ts[k].hi>>]
 Failing(c) ==
   LET m == ModelToks(c.text) IN
   (IF c.out \notin Diagnostics \/ (c.toks # <<>> /\ c.toks[Len(c.toks)][1] = "EXC") THEN {"FailsOnlyWithDiagnostics"} ELSE {})
   \cup (IF c.slow = 1 THEN {"TerminatesPromptly"} ELSE {})
+  \cup (IF c.growth > MaxGrowthPercent THEN {"TimeProportionalToLength"} ELSE {})
   \cup (IF c.toks # <<>> /\ c.toks[Len(c.toks)][1] # "EXC" /\ c.toks # m THEN {"LexerMatchesModel"} ELSE {})
   \cup (IF c.out = "ok" /\ m[Len(m)][1] = "ERR" THEN {"LexicalErrorIsRejected"} ELSE {})
 Init == i = 0
